@@ -164,11 +164,27 @@ func Compile(script []byte, opts CompilerOptions) (*Bytecode, error) {
 	return compileScript(script, &opts, nil)
 }
 
+// emitError carries a capacity error of the bytecode format from emit to
+// compileScript.
+type emitError struct {
+	err error
+}
+
 func compileScript(
 	script []byte,
 	opts *CompilerOptions,
 	modStore *moduleStore,
-) (*Bytecode, error) {
+) (bc *Bytecode, err error) {
+
+	defer func() {
+		if r := recover(); r != nil {
+			e, ok := r.(emitError)
+			if !ok {
+				panic(r)
+			}
+			bc, err = nil, e.err
+		}
+	}()
 
 	fileSet := parser.NewFileSet()
 	moduleName := opts.ModulePath
@@ -200,7 +216,7 @@ func compileScript(
 		return nil, err
 	}
 
-	bc := compiler.Bytecode()
+	bc = compiler.Bytecode()
 	if bc.Main.NumLocals > maxNumLocals {
 		return nil, ErrSymbolLimit
 	}
@@ -548,7 +564,10 @@ func (c *Compiler) emit(node parser.Node, opcode Opcode, operands ...int) int {
 	inst := make([]byte, 0, 8)
 	inst, err := MakeInstruction(inst, opcode, operands...)
 	if err != nil {
-		panic(err)
+		// an operand does not fit the bytecode format (too many arguments,
+		// locals, literal elements or constants): unwind to compileScript,
+		// which returns it as a compile error
+		panic(emitError{err: c.error(node, err)})
 	}
 
 	pos := c.addInstruction(inst)
